@@ -23,7 +23,7 @@ class Greedy(FunctionContract):
                 ("sums-nonneg", forall_bins(b, lambda j: b.S[j] >= 0)),
                 ("gap<=largest", forall_bins(b, lambda j, l: b.S[j] - b.S[l] <= M, 2))]
 
-    loops = {0: LoopSpec("sorted(items, key=binner.valueof, reverse=True)", inv.__func__)}
+    loops = {0: LoopSpec(None, inv.__func__)}
 
     @staticmethod
     def step(c, args, kwargs):
@@ -80,7 +80,7 @@ class RoundRobin(FunctionContract):
                 ("I_f2", z3.Implies(z3.And(ib == 0, i >= 1), D0 + v(i - 1) <= b.S[k - 1])),
                 ("I_g:cardinalities", forall_bins(b, lambda j: b.CNT[j] == b.CNT[k - 1] + z3.If(j < ib, 1, 0)))]
 
-    loops = {0: LoopSpec("sorted(items, key=binner.valueof, reverse=True)", inv.__func__)}
+    loops = {0: LoopSpec(None, inv.__func__)}
 
     @staticmethod
     def step(c, args, kwargs):
